@@ -730,6 +730,101 @@ theorem decodeNeg_accept (pf : Profile) (hpf : pf.creds = none) (bs : Bytes) (cm
       simp [encGreeting, htl]
       omega
 
+theorem decodeAuth_accept (pf : Profile) (user pass : Text) (off : Nat) (pre bs : Bytes) (cmd : Nat) (a : Addr)
+    (port used : Nat) (pre' : Bytes) (h : decodeAuth pf user pass off pre bs = .accept cmd a port used pre') :
+    ∃ (rsv : Byte) (rest : Bytes),
+      bs = encAuth user pass ++ ((⟨cmd, rsv, a, port⟩ : Request).enc ++ rest) ∧
+      user.length ≤ 255 ∧ pass.length ≤ 255 ∧
+      (⟨cmd, rsv, a, port⟩ : Request).WF = true ∧ pf.cmds.contains cmd = true ∧
+      used = off + (encAuth user pass).length + (⟨cmd, rsv, a, port⟩ : Request).enc.length ∧
+      pre' = pre ++ [1, 0] := by
+  match bs, h with
+  | ver :: ulen :: rest, h =>
+    simp only [decodeAuth] at h
+    by_cases hv : ver.toNat ≠ 1
+    · simp [hv] at h
+    by_cases hl : rest.length < ulen.toNat + 1
+    · simp [hv, hl] at h
+    simp only [hv, hl, if_false] at h
+    by_cases hp : (rest.drop (ulen.toNat + 1)).length < byteAt rest ulen.toNat
+    · simp only [hp, if_true] at h
+      cases h
+    simp only [hp, if_false] at h
+    by_cases hcr : ¬ (rest.take ulen.toNat = user ∧
+        (rest.drop (ulen.toNat + 1)).take (byteAt rest ulen.toNat) = pass)
+    · simp only [hcr, if_false] at h
+      cases h
+    have hcr : rest.take ulen.toNat = user ∧
+        (rest.drop (ulen.toNat + 1)).take (byteAt rest ulen.toNat) = pass := Classical.not_not.mp hcr
+    simp only [hcr, and_self, if_true] at h
+    obtain ⟨rsv, tl, hbs, hwf, hc, hu, hpre⟩ := decodeReq_accept _ _ _ _ _ _ _ _ _ h
+    have hul := UInt8.toNat_lt ulen
+    have hi : ulen.toNat < rest.length := by omega
+    have hdrop : rest.drop ulen.toNat = rest[ulen.toNat] :: rest.drop (ulen.toNat + 1) :=
+      List.drop_eq_getElem_cons hi
+    have hx : byteAt rest ulen.toNat = (rest[ulen.toNat]).toNat := by
+      simp [byteAt, List.getD_eq_getElem?_getD, hi]
+    have hxl := UInt8.toNat_lt (rest[ulen.toNat])
+    have huser : user.length = ulen.toNat := by rw [← hcr.1]; simp; omega
+    have hpass : pass.length = byteAt rest ulen.toNat := by
+      rw [← hcr.2]; simp only [List.length_take, List.length_drop] at hp ⊢; omega
+    have hv1 : ver = 1 := by
+      apply UInt8.toNat_inj.mp
+      have : ver.toNat = 1 := by omega
+      simpa using this
+    refine ⟨rsv, tl, ?_, by omega, by omega, hwf, hc, ?_, hpre⟩
+    · have e1 : rest = rest.take ulen.toNat ++ rest.drop ulen.toNat := (List.take_append_drop _ _).symm
+      have e2 : rest.drop (ulen.toNat + 1) =
+          (rest.drop (ulen.toNat + 1)).take (byteAt rest ulen.toNat) ++
+            (rest.drop (ulen.toNat + 1)).drop (byteAt rest ulen.toNat) := (List.take_append_drop _ _).symm
+      rw [hcr.2, hbs] at e2
+      rw [hdrop, e2, hcr.1] at e1
+      subst hv1
+      rw [e1]
+      simp [encAuth, huser, hpass, hx, u8_toNat]
+    · subst hu
+      simp [encAuth, huser, hpass]
+      omega
+
+theorem decodeNeg_accept_auth (pf : Profile) (user pass : Text) (hpf : pf.creds = some (user, pass)) (bs : Bytes)
+    (cmd : Nat) (a : Addr) (port used : Nat) (pre : Bytes) (h : decodeNeg pf bs = .accept cmd a port used pre) :
+    ∃ (methods : Bytes) (rsv : Byte) (rest : Bytes),
+      bs = encGreeting methods ++ (encAuth user pass ++ ((⟨cmd, rsv, a, port⟩ : Request).enc ++ rest)) ∧
+      0 < methods.length ∧ methods.length ≤ 255 ∧ methods.contains (u8 pf.method) = true ∧
+      user.length ≤ 255 ∧ pass.length ≤ 255 ∧
+      (⟨cmd, rsv, a, port⟩ : Request).WF = true ∧ pf.cmds.contains cmd = true ∧
+      used = (encGreeting methods).length + (encAuth user pass).length +
+        (⟨cmd, rsv, a, port⟩ : Request).enc.length ∧
+      pre = [5, u8 pf.method, 1, 0] := by
+  match bs, h with
+  | ver :: nm :: rest, h =>
+    simp only [decodeNeg] at h
+    by_cases hv : ver.toNat ≠ 5
+    · simp [hv] at h
+    by_cases hn : nm.toNat = 0
+    · simp [hv, hn] at h
+    by_cases hl : rest.length < nm.toNat
+    · simp [hv, hn, hl] at h
+    by_cases hm : ¬ (rest.take nm.toNat).contains (u8 pf.method) = true
+    · simp only [hv, hn, hl, hm, not_false_eq_true, if_true, if_false] at h
+      cases h
+    simp only [hv, hn, hl, hm, if_false, hpf] at h
+    obtain ⟨rsv, tl, hbs, hu1, hp1, hwf, hc, hu, hpre⟩ := decodeAuth_accept _ _ _ _ _ _ _ _ _ _ _ h
+    have hnl := UInt8.toNat_lt nm
+    have htl : (rest.take nm.toNat).length = nm.toNat := by simp; omega
+    have hv5 : ver = 5 := by
+      apply UInt8.toNat_inj.mp
+      have : ver.toNat = 5 := by omega
+      simpa using this
+    refine ⟨rest.take nm.toNat, rsv, tl, ?_, by omega, by omega, by simpa using hm, hu1, hp1, hwf, hc, ?_, ?_⟩
+    · subst hv5
+      rw [← hbs]
+      simp [encGreeting, htl, u8_toNat]
+    · subst hu
+      simp [encGreeting, htl]
+      omega
+    · rw [hpre]; rfl
+
 /-! ### Round trip -/
 
 theorem parse_ipString (c : IPText) (hrt : c.RT) (b : Bytes)
